@@ -113,7 +113,7 @@ fn sig_matches(known: &str, sig: &str) -> bool {
     if known == sig { return true }
     // a panic whose enclosing function could not be symbolised ("?") matches on file and message
     let (k, s): (Vec<&str>, Vec<&str>) = (known.split('|').collect(), sig.split('|').collect());
-    k.len() == 5 && s.len() == 5 && k[0] == "panic" && s[0] == "panic" && s[2] == "?" && k[1] == s[1] && k[3] == s[3] && k[4] == s[4]
+    k.len() == 6 && s.len() == 6 && k[0] == "panic" && s[0] == "panic" && s[2] == "?" && k[1] == s[1] && k[3] == s[3] && k[4] == s[4] && k[5] == s[5]
 }
 
 // ------------------------------------------------------------------------------------------------
@@ -298,7 +298,7 @@ pub fn run_tape_batches(p: &dyn Property, ctx: &mut Ctx, label: &str, total_case
         let seed = hash64(&(ctx.seed, ctx.shard as u64, label, batch));
         let mut seed_bytes = [0u8; 32];
         for i in 0..4 { seed_bytes[i * 8..(i + 1) * 8].copy_from_slice(&hash64(&(seed, i as u64)).to_le_bytes()); }
-        let config = Config { cases: n as u32, failure_persistence: None, max_shrink_iters: 600, rng_algorithm: RngAlgorithm::ChaCha,
+        let config = Config { cases: n as u32, failure_persistence: None, max_shrink_iters: 600, max_shrink_time: 90_000, rng_algorithm: RngAlgorithm::ChaCha,
                               rng_seed: RngSeed::Fixed(seed), max_global_rejects: 1_000_000, max_local_rejects: 1_000_000, ..Config::default() };
         let mut runner = TestRunner::new_with_rng(config, TestRng::from_seed(RngAlgorithm::ChaCha, &seed_bytes));
         let strat = proptest::collection::vec(any::<u32>(), tape_len..=tape_len);
